@@ -710,7 +710,9 @@ func (st *c18State) doStep() {
 			st.fail("NewPrivateKey", "valid key rejected: %v", err)
 		} else {
 			st.priv[k], st.mpriv[k] = nk, dv
-			sk, err := bitcoin.NewSchnorrPrivateKey(b32(dv))
+			buf2 := b32(dv)
+			sk, err := bitcoin.NewSchnorrPrivateKey(buf2)
+			st.scribble(buf2)
 			if err != nil {
 				st.fail("NewSchnorrPrivateKey", "valid key rejected: %v", err)
 			} else {
@@ -729,6 +731,33 @@ func (st *c18State) doStep() {
 			st.fail("NewPublicKey", "err=%v, expected accept=%v", err, ok)
 		} else if ok {
 			st.pub[k], st.mpub[k] = nk, want
+			switch rng.Intn(3) {
+			case 0:
+				// the same key through the SubjectPublicKeyInfo parser (buffer scribbled afterwards)
+				der := oracle.SPKIWrite(oracle.EncodeUncompressed(want))
+				pk2, err := secec.ParseASN1PublicKey(der)
+				st.scribble(der)
+				if err != nil {
+					st.fail("ParseASN1PublicKey", "valid SubjectPublicKeyInfo rejected: %v", err)
+				} else {
+					st.pub[k] = pk2
+				}
+			case 1:
+				// x-only import (buffer scribbled afterwards)
+				ev := want
+				if ev.Y.Bit(0) == 1 {
+					ev = oracle.Neg(ev)
+				}
+				xb := b32(ev.X)
+				spk, err := bitcoin.NewSchnorrPublicKey(xb)
+				st.scribble(xb)
+				if err != nil {
+					st.fail("NewSchnorrPublicKey", "valid x-only key rejected: %v", err)
+				} else {
+					st.spub[k], st.mspub[k] = spk, ev
+					// keep the invariant "spriv[k] belongs to spub[k]" out of it: spub is only checked against mspub
+				}
+			}
 		} else {
 			w.Class("c18:ctor:fail")
 		}
